@@ -16,13 +16,16 @@ EXHAUSTIVE = False
 FPS = {"flat": lambda k: F(1), "lin": lambda k: F(k + 1), "pow": lambda k: F(1, (k + 1) ** 2)}
 def cases(tier, rnd):
     kmax = 12 if tier == "quick" else 40
+    # the ASSUMED contract of the recursive generator, against an independent enumeration
+    for T in (1, 2, 3, 4):
+        for k in range(0, 16 if tier == "quick" else 41): yield dict(generator=True, k=k, T=T)
     for _ in range(400 if tier == "quick" else 4000):
         seq = []
         for _ in range(rnd.randint(1, 3)):
             T = rnd.randint(1, 4); lo = rnd.randint(0, 4); hi = rnd.randint(lo + 1, min(kmax, lo + (7 if T > 2 else 10)))
             seq.append(dict(kind=rnd.choice(["split", "delta"]), T=T, probs=[[rnd.randint(1, 5), 5] for _ in range(T)], fp=rnd.choice(list(FPS)), lo=lo, hi=hi, target=rnd.randint(lo - 1, hi + 1), via_main=rnd.random() < .3))
         yield dict(seq=seq)
-def nontrivial(c): return any(s["T"] >= 2 and s["hi"] - s["lo"] >= 2 for s in c["seq"])
+def nontrivial(c): return c.get("generator") or any(s["T"] >= 2 and s["hi"] - s["lo"] >= 2 for s in c["seq"])
 
 def splits(k, T):
     if T == 1: return [(k,)]
@@ -41,7 +44,22 @@ def oracle(s):
     Z = sum(raw.values())
     return {d: v / Z for d, v in raw.items()}
 
+def independent_splits(k, T):
+    out = []
+    def rec(t, left, acc):
+        if t == 0:
+            if left == 0: out.append(tuple(reversed(acc)))
+            return
+        for x in range(0, left // t + 1): rec(t - 1, left - x * t, acc + [x])
+    rec(T, k, []); return out
 def check(c):
+    if c.get("generator"):
+        o = JointDegreeSplitDegree.__new__(JointDegreeSplitDegree); k, T = c["k"], c["T"]
+        got = [tuple(x) for x in guarded("JointDegreeSplitDegree.get_valid_joint_degrees", lambda: list(o.get_valid_joint_degrees(k, T)))]
+        if any(len(d) != T or any(x < 0 for x in d) or sum((t + 1) * x for t, x in enumerate(d)) != k for d in got): raise Violation("JointDegreeSplitDegree.get_valid_joint_degrees.admissible", f"k={k}, T={T}: {got[:5]}")
+        if len(set(got)) != len(got): raise Violation("JointDegreeSplitDegree.get_valid_joint_degrees.each_once", f"k={k}, T={T}")
+        if set(got) != set(independent_splits(k, T)): raise Violation("JointDegreeSplitDegree.get_valid_joint_degrees.complete", f"k={k}, T={T}: {len(got)} vectors, independent enumeration gives {len(independent_splits(k, T))}")
+        return []
     for n, s in enumerate(c["seq"]):
         probs = [F(a, b) for a, b in s["probs"]]
         params = {N_.FP: FPS[s["fp"]], N_.PROBS: list(probs), N_.MOTIF_SIZES: [t + 2 for t in range(s["T"])], N_.LOW_HIGH_DEGREE_BOUND: (s["lo"], s["hi"])}
